@@ -8,6 +8,8 @@ def run(ctx, rep):
     regexrules.rule_exec_test_agreement(ctx, rep, "C20-R2")
     limits.rule_regex_timeout_translated(ctx, rep, "C20-R3a")
     termination.rule_native_loops_terminate(ctx, rep, "C20-R3")
+    regexrules.rule_lastindex_is_match_end(ctx, rep, "C20-R4")
+    regexrules.rule_split_separator_discipline(ctx, rep, "C20-R5")
     rep.undecided += [
         "the lastIndex state machine over histories of exec/test/assignment",
         "replacement-template expansion ($$, $&, $n ...) and split/match result values",
